@@ -68,6 +68,6 @@ def main():
     }
     json.dump(m, open(os.path.join(V, "MANIFEST.json"), "w"), indent=1)
 
-HOOK_COMMITS = []
+HOOK_COMMITS = ["a8c1e7a"]
 if __name__ == "__main__":
     main()
